@@ -251,6 +251,20 @@ impl<'a> ReadAdapter<'a> {
         }
     }
 
+    /// Verification hook: exposes the adapter's internal state as
+    /// (buf.len(), pos, buf.capacity(), bytes buffered in the inner reader, guaranteed_eof),
+    /// used as a canonical state key by the model-checking harness in /verif.
+    #[cfg(winterfell_verif)]
+    pub fn verif_state(&self) -> (usize, usize, usize, usize, bool) {
+        (
+            self.buf.len(),
+            self.pos,
+            self.buf.capacity(),
+            self.reader.borrow().buffer().len(),
+            self.guaranteed_eof,
+        )
+    }
+
     /// Get the internal adapter buffer as a (possibly empty) slice of bytes
     #[inline(always)]
     fn buffer(&self) -> &[u8] {
